@@ -13,7 +13,7 @@
 //                         <id>/s <the SAX2 events Xerces delivered for the same text, as B tokens>
 //   <id> O <enc> <bs> <writes>   XalanTransformerOutputStream with setBufferSize(bs); enc = u16 | loc;
 //                         w|units c|unit n|bytes f ; prints <id> <hex bytes of callback 1> ... F<flush calls>
-//   <id> T <seed> <hex stylesheet> <hex source> <params: - or name=hexexpr,...>
+//   <id> T <seed> <hex stylesheet> <hex source> <params: - or name=hexexpr,...> [flags: u = the stylesheet uses its base URI]
 //                         runs the same transformation through every form; prints
 //                         <id>/ref ok <hex bytes> | err <rc>        (stream source, stylesheet source, std::ostream)
 //                         <id>/treeref ok <hex canonical dump of the parsed reference bytes> | err
@@ -680,8 +680,8 @@ static Result run_capi(const Case& c, int which)
     case 2: rc = XalanTransformToFile(c.srcPath.c_str(), c.sheetPath.c_str(), outPath.c_str(), h); break;
     case 3: rc = XalanTransformToHandler(c.srcPath.c_str(), c.sheetPath.c_str(), h, &sink, sink_write, sink_flush); break;
     default:
-        rc = XalanCompileStylesheetFromStream(c.sheet.c_str(), (unsigned long) c.sheet.size(), h, &css);
-        if (rc == 0) rc = which == 7 ? XalanParseSource(c.srcPath.c_str(), h, &psh) : XalanParseSourceFromStream(c.src.c_str(), (unsigned long) c.src.size(), h, &psh);
+        rc = which == 7 ? XalanCompileStylesheetFromStream(c.sheet.c_str(), (unsigned long) c.sheet.size(), h, &css) : XalanCompileStylesheet(c.sheetPath.c_str(), h, &css);
+        if (rc == 0) rc = which == 7 ? XalanParseSourceFromStream(c.src.c_str(), (unsigned long) c.src.size(), h, &psh) : XalanParseSource(c.srcPath.c_str(), h, &psh);
         if (rc == 0) {
             if (which == 4 || which == 7) rc = XalanTransformToDataPrebuilt(psh, css, &data, h);
             else if (which == 5) rc = XalanTransformToFilePrebuilt(psh, css, outPath.c_str(), h);
@@ -699,7 +699,7 @@ static Result run_capi(const Case& c, int which)
     DeleteXalanTransformer(h);
     return res;
 }
-static const char* capi_name[] = { "capi.todata", "capi.todata_pi", "capi.tofile", "capi.tohandler", "capi.prebuilt_todata", "capi.prebuilt_tofile", "capi.prebuilt_tohandler", "capi.prebuiltfile_todata" };
+static const char* capi_name[] = { "capi.todata", "capi.todata_pi", "capi.tofile", "capi.tohandler", "capi.prebuilt_todata", "capi.prebuilt_tofile", "capi.prebuilt_tohandler", "capi.prebuiltstream_todata" };
 
 static void report(const Case& c, const std::string& form, const Result& r, const Result& ref, const std::string& treeref, bool treerefOk)
 {
@@ -719,8 +719,9 @@ static void report(const Case& c, const std::string& form, const Result& r, cons
     else std::cout << "ok " << hexs(r.data) << "\n";
 }
 
-static void mode_T(Case& c, bool nulFree)
+static void mode_T(Case& c, bool usesBaseURI)
 {
+    const bool nulFree = false;
     { std::ofstream f(c.srcPath.c_str(), std::ios::binary); f << c.src; }
     { std::ofstream f(c.sheetPath.c_str(), std::ios::binary); f << c.sheet; }
     Result ref = run_form(c, S_STREAM, H_INPUT, T_OSTREAM);
@@ -737,9 +738,15 @@ static void mode_T(Case& c, bool nulFree)
     }
     // every target form with the reference source/stylesheet forms and with one rotating combination
     for (int g = 1; g < T_N; ++g) {
-        report(c, std::string("stream.input.") + target_name[g], run_form(c, S_STREAM, H_INPUT, (Target) g), ref, treeref, treeOk);
         int s = (int) (lcg(rot) % S_N), h = (int) (lcg(rot) % H_N);
         if (s == S_WRAPRAW) s = S_WRAP;
+        if ((g == T_XDOM || g == T_STREE) && ref.rc == 0 && !treeOk) {
+            // the result is not one well-formed XML document (text / html method, text at the top
+            // level): a tree-building target cannot hold it, nothing to compare
+            std::cout << c.id << "/stream.input." << target_name[g] << " skip\n";
+            continue;
+        }
+        report(c, std::string("stream.input.") + target_name[g], run_form(c, S_STREAM, H_INPUT, (Target) g), ref, treeref, treeOk);
         report(c, std::string(src_name[s]) + "." + sheet_name[h] + "." + target_name[g], run_form(c, (Src) s, (Sheet) h, (Target) g), ref, treeref, treeOk);
     }
     // the handler overloads of transform()
@@ -750,6 +757,7 @@ static void mode_T(Case& c, bool nulFree)
     // C API (the data buffer is NUL terminated: only for outputs without NUL bytes)
     for (int w = 0; w < 8; ++w) {
         bool dataForm = w == 0 || w == 1 || w == 4 || w == 7;
+        if (w == 7 && usesBaseURI) { std::cout << c.id << "/" << capi_name[w] << " skip\n"; continue; }   // the FromStream functions take no system id
         if (dataForm && !nulFree && ref.rc == 0 && ref.data.find('\0') != std::string::npos) { std::cout << c.id << "/" << capi_name[w] << " skip\n"; continue; }
         report(c, capi_name[w], run_capi(c, w), ref, treeref, treeOk);
     }
@@ -782,7 +790,7 @@ int main(int argc, char** argv)
                 }
                 c.srcPath = dir + "/main.xml"; c.sheetPath = dir + "/main.xsl";
                 c.srcURL = "file://" + c.srcPath; c.sheetURL = "file://" + c.sheetPath;
-                mode_T(c, false);
+                mode_T(c, toks.size() > 6 && toks[6].find('u') != std::string::npos);
             }
         }
         catch (...) { std::cout << id << " EXC\n"; }
